@@ -63,8 +63,18 @@ def _quiet():
         lg.propagate = False
 
 
+_OWNER = os.getpid()      # the process that imported the driver; forked workers inherit the value
+
+
 def _tmpdir():
-    return tempfile.mkdtemp(prefix="bcc_C11_", dir="/var/tmp")
+    return tempfile.mkdtemp(prefix=f"bcc_C11_{_OWNER}_", dir="/var/tmp")
+
+
+def _sweep():
+    """remove what workers that died (GLPK abort) could not remove themselves"""
+    import glob
+    for d in glob.glob(f"/var/tmp/bcc_C11_{_OWNER}_*"):
+        shutil.rmtree(d, ignore_errors=True)
 
 
 # ----------------------------------------------------------------------------------------------------------------------
@@ -308,6 +318,7 @@ def run(tier: str, seed: int) -> dict:
                                            "config": list(config) if config is not None else None}})
             else:
                 res.append(r)
+    _sweep()
     assert cobra.Configuration().bounds == before
     n = models = 0
     fails, samples = list(crashes), []
@@ -360,6 +371,7 @@ def _replay_inner(p):
 def replay(payload_replay: dict):
     """runs in a forked child (a replayed case may abort the process, and the Configuration singleton stays untouched)"""
     r = gen_io.run_units(_replay_inner, [payload_replay], nproc=1)[0]
+    _sweep()
     if isinstance(r, gen_io.Crashed):
         return f"the checking process died with exit code {r.exitcode}"
     return r
